@@ -1,8 +1,8 @@
 """
 C19 — cell reduction recovers the same crystal from any supercell description.
 
-Explorer E1: 14 primitive crystals (12 of the catalogue + two spin-ordered ones) x ALL Hermite-normal-form supercells of determinant 2-3 (quick) / 2-6
-(thorough) x 3 unimodular re-bases (one left-handed) x atom orders (reversal, all cyclic shifts, all 6 orders of
+Explorer E1: 14 primitive crystals (12 of the catalogue + two spin-ordered ones) x ALL Hermite-normal-form
+supercells of determinant 2-3 (quick) / 2-6 (thorough) x 3 unimodular re-bases (one left-handed) x atom orders (reversal, all cyclic shifts, all 6 orders of
 three-atom lists) x single-coordinate noise (+-3e-10, +4e-9).
 Every description is written down from the definition by R-geom (no package code) and handed to the real
 constructor with reduction enabled; the result is compared with the primitive description.
@@ -32,7 +32,6 @@ ASSUMPTIONS = [
 ]
 
 CRYSTALS = ['FCC', 'BCC', 'HCP', 'DIAMOND', 'OMEGA', 'B2AB', 'WURTZ2', 'P1', 'RHOM', 'HONEY', 'RECTM', 'SQ2MM', 'AFM', 'UUDD']
-NOISE = 3e-10
 # noise letters (index -> signed amplitude): +-3e-10 (DESIGN 5.1) and one larger value that is still below the 1e-8
 # threshold but above threshold/det, which the threshold rescaling inside reduce() has to absorb
 NOISES = [3e-10, -3e-10, 4e-9]
